@@ -47,8 +47,8 @@ def accInfo : Acc → String × String × String
   | .int32s => ("Int32Values", "csproto.DecodeVarint", "int32Slice")
   | .int64 => ("Int64Value", "csproto.DecodeVarint", "-")
   | .int64s => ("Int64Values", "csproto.DecodeVarint", "int64Slice")
-  | .sint32 => ("SInt32Value", "csproto.DecodeZigZag32", "-")
-  | .sint32s => ("SInt32Values", "csproto.DecodeZigZag32", "int32Slice")
+  | .sint32 => ("SInt32Value", "csproto.DecodeVarint", "-")
+  | .sint32s => ("SInt32Values", "csproto.DecodeVarint", "int32Slice")
   | .sint64 => ("SInt64Value", "csproto.DecodeZigZag64", "-")
   | .sint64s => ("SInt64Values", "csproto.DecodeZigZag64", "int64Slice")
   | .string => ("StringValue", "", "-")
